@@ -157,11 +157,13 @@ def tripleToRow (t : Triple) (c : Clause) : T2R :=
   match r with
   | none => .skip
   | some r =>
-  -- ID alias of the object: node id (no validity check in the Go code), predicate id, else a hard error
+  -- ID alias of the object: node id (validated unless it is named after the object itself), predicate id
   let r : Except QErr (Option Row) :=
     if c.oIDAlias = [] then .ok (some r) else
     match t.o with
-    | .node n => .ok (some (r.set c.oIDAlias (.str n.id)))
+    | .node n =>
+      if c.oIDAlias == c.oBinding || c.oIDAlias == c.oAlias then .ok (some (r.set c.oIDAlias (.str n.id)))
+      else .ok (bindCell (some r) c.oIDAlias (.str n.id))
     | .pred p => .ok (bindCell (some r) c.oIDAlias (.str p.id))
     | .lit _ => if c.optional then .ok (bindCell (some r) c.oIDAlias .null) else .ok none
   match r with
